@@ -80,6 +80,17 @@ type Img struct {
 	Schemas  []Schema   `json:"schemas"`
 	Roots    [][2]string `json:"roots"`
 	Anns     []EntAnn    `json:"anns,omitempty"` // entity annotations of the objects of the wanted package
+	Rules    []ListRule  `json:"rules,omitempty"` // j5.list.v1 constraints of the properties that carry any
+}
+
+// ListRule: the list constraints of one property of a source API schema, as buildListRequest reads them
+// (which constraint messages are present; for an enum reference the default filters and the enum's options).
+type ListRule struct {
+	Pkg, Name, JSON      string
+	Filter, Sort, Search bool
+	Defaults             []string
+	Prefix               string
+	Options              []string
 }
 
 // EntObs: what the client API says about one entity.
@@ -152,6 +163,8 @@ type MethodObs struct {
 	HasResp bool     `json:"has_resp"`
 	HasList bool     `json:"has_list"`
 	Filter  []string `json:"filter"`
+	Sort    []string `json:"sort"`
+	Search  []string `json:"search"`
 }
 
 // SwaggerOp is one operation of the OpenAPI document as marshalled.
@@ -566,7 +579,100 @@ func abstractSchemas(pkg string, schemas map[string]*schema_j5pb.RootSchema, im 
 	}
 }
 
+// listRuleOf: the constraint messages on a property's field that buildListRequest looks at.
+func listRuleOf(f *schema_j5pb.Field, enums map[[2]string]*schema_j5pb.Enum) (ListRule, bool) {
+	var r ListRule
+	switch t := f.GetType().(type) {
+	case *schema_j5pb.Field_Enum:
+		if lr := t.Enum.ListRules; lr != nil && lr.Filtering != nil {
+			r.Filter = true
+			r.Defaults = append([]string{}, lr.Filtering.DefaultFilters...)
+			if ref := t.Enum.GetRef(); ref != nil {
+				if e := enums[[2]string{ref.Package, ref.Schema}]; e != nil {
+					r.Prefix = e.Prefix
+					for _, o := range e.Options {
+						r.Options = append(r.Options, o.Name)
+					}
+				}
+			}
+		}
+	case *schema_j5pb.Field_Bool:
+		if lr := t.Bool.ListRules; lr != nil {
+			r.Filter = lr.Filtering != nil
+		}
+	case *schema_j5pb.Field_Float:
+		if lr := t.Float.ListRules; lr != nil {
+			r.Filter, r.Sort = lr.Filtering != nil, lr.Sorting != nil
+		}
+	case *schema_j5pb.Field_Integer:
+		if lr := t.Integer.ListRules; lr != nil {
+			r.Filter, r.Sort = lr.Filtering != nil, lr.Sorting != nil
+		}
+	case *schema_j5pb.Field_Key:
+		if lr := t.Key.ListRules; lr != nil {
+			r.Filter = lr.Filtering != nil
+		}
+	case *schema_j5pb.Field_Timestamp:
+		if lr := t.Timestamp.ListRules; lr != nil {
+			r.Filter, r.Sort = lr.Filtering != nil, lr.Sorting != nil
+		}
+	case *schema_j5pb.Field_String_:
+		if lr := t.String_.ListRules; lr != nil {
+			r.Search = lr.Searching != nil
+		}
+	case *schema_j5pb.Field_Date:
+		// present in the schema, not read by buildListRequest; passed on so that the model decides
+		if lr := t.Date.ListRules; lr != nil {
+			r.Filter = lr.Filtering != nil
+		}
+	}
+	return r, r.Filter || r.Sort || r.Search
+}
+
+func abstractRules(pkg string, schemas map[string]*schema_j5pb.RootSchema, enums map[[2]string]*schema_j5pb.Enum, im *Img) {
+	names := make([]string, 0, len(schemas))
+	for k := range schemas {
+		names = append(names, k)
+	}
+	sort.Strings(names)
+	for _, name := range names {
+		var ps []*schema_j5pb.ObjectProperty
+		switch t := schemas[name].Type.(type) {
+		case *schema_j5pb.RootSchema_Object:
+			ps = t.Object.Properties
+		case *schema_j5pb.RootSchema_Oneof:
+			ps = t.Oneof.Properties
+		}
+		for _, p := range ps {
+			if r, ok := listRuleOf(p.Schema, enums); ok {
+				r.Pkg, r.Name, r.JSON = pkg, name, p.Name
+				im.Rules = append(im.Rules, r)
+			}
+		}
+	}
+}
+
 func abstractSourceAPI(api *source_j5pb.API, im *Img, res *Result) {
+	enums := map[[2]string]*schema_j5pb.Enum{}
+	addEnums := func(pkg string, schemas map[string]*schema_j5pb.RootSchema) {
+		for name, s := range schemas {
+			if e := s.GetEnum(); e != nil {
+				enums[[2]string{pkg, name}] = e
+			}
+		}
+	}
+	for _, p := range api.Packages {
+		addEnums(p.Name, p.Schemas)
+		for _, sp := range p.SubPackages {
+			addEnums(p.Name+"."+sp.Name, sp.Schemas)
+		}
+	}
+	for _, p := range api.Packages {
+		abstractRules(p.Name, p.Schemas, enums, im)
+		for _, sp := range p.SubPackages {
+			abstractRules(p.Name+"."+sp.Name, sp.Schemas, enums, im)
+		}
+	}
 	for _, p := range api.Packages {
 		abstractSchemas(p.Name, p.Schemas, im, p.Name == im.Pkg)
 		for _, sp := range p.SubPackages {
@@ -613,6 +719,12 @@ func observeClient(capi *client_j5pb.API, res *Result) {
 					mo.HasList = true
 					for _, f := range rq.List.FilterableFields {
 						mo.Filter = append(mo.Filter, f.Name)
+					}
+					for _, f := range rq.List.SortableFields {
+						mo.Sort = append(mo.Sort, f.Name)
+					}
+					for _, f := range rq.List.SearchableFields {
+						mo.Search = append(mo.Search, f.Name)
 					}
 				}
 			}
